@@ -249,7 +249,7 @@ type c09Unit struct {
 	render string // canonical rendering of the argument as it appears in the AST
 }
 
-// the vocabulary {foo, bar, mit, 1, -1, x, t, (1 plus 2), "s"}
+// the vocabulary {foo, bar, mit, 1, -1, x, t, (x plus 2), "s"}
 func (w *c09World) units() []c09Unit {
 	mk := func(text string, word, arg bool, ty string, ass bool, render string) c09Unit {
 		return c09Unit{text, am.Unit{Text: text, Word: word, Arg: arg, Type: ty, Assignable: ass}, render}
@@ -263,7 +263,7 @@ func (w *c09World) units() []c09Unit {
 		mk("-1", false, true, "Zahl", false, "-1"),
 		mk("x", false, true, "Zahl", true, "x"),
 		mk("t", false, true, "Text", true, "t"),
-		mk("(1 plus 2)", false, true, "Zahl", false, "(1 plus 2)"),
+		mk("(x plus 2)", false, true, "Zahl", false, "(x plus 2)"),
 		mk("\"s\"", false, true, "Text", false, "\"s\""),
 	}
 }
